@@ -224,6 +224,18 @@ theorem tyS_wf (lp : Bool) (ret : Option Ty) (g : TEnv) (e : Expr) (T : Ty) (h :
       · obtain ⟨t, _, h3⟩ := bind_ok h2
         cases h3; rfl
     all_goals cases h2
+  | struct fs =>
+    simp only [tyS] at h
+    obtain ⟨fts, _, h2⟩ := bind_ok h
+    exact okw h2
+  | facc e k =>
+    simp only [tyS] at h
+    obtain ⟨t, _, h2⟩ := bind_ok h
+    split at h2
+    · split at h2
+      · exact okw h2
+      · cases h2
+    all_goals first | (cases h2; done) | (split at h2 <;> (try split at h2) <;> (try split at h2) <;> (try split at h2) <;> first | exact okw h2 | cases h2)
   | post op e =>
     cases op <;> simp only [tyS] at h
     case collect =>
@@ -396,6 +408,11 @@ def PFo (f : Nat) : Prop := ∀ (lp : Bool) (ret : Option Ty) (S : STy) (g : TEn
   EnvOkG S env g → GWf g → RWf ret → StoreOk S σ → VT S (.fn [] (.tup [b, t])) itv → eqv b .bool = true → wf t = true →
   tyS true ret ((x, t) :: ("$con", .bool) :: g) body = .ok T →
   OutP lp ret S (fun S' v => VT S' .void v) (forGo f env x itv body σ)
+
+/-- the field initialisers of a struct literal, in order -/
+def PFd (f : Nat) : Prop := ∀ (lp : Bool) (ret : Option Ty) (S : STy) (g : TEnv) (env : Env) (fs : List (String × Expr)) (fts : List (String × Ty)) (σ : St),
+  EnvOkG S env g → GWf g → RWf ret → StoreOk S σ → tySFields lp ret g fs = .ok fts →
+  OutP lp ret S (fun S' vs => Rel S' fts vs) (evalFields f env fs σ)
 
 /-- one pull of an iterator of static type `() -> (bool, t)`: a value of `t`, or the end -/
 def PPull (f : Nat) : Prop := ∀ (lp : Bool) (ret : Option Ty) (S : STy) (it : Val) (t : Ty) (σ : St),
